@@ -5,6 +5,8 @@ rows = []
 for d in sorted(glob.glob("/verif/seeded/*/")):
     m = json.load(open(os.path.join(d, "meta.json")))
     det = m["detected_by"].replace("|", "/").replace("\n", " ")
+    if m.get("obsolete"):
+        det += " — OBSOLETE: " + m["obsolete"].replace("|", "/")
     missed = "missed before" in det or "missed at first" in det
     weak = "no-failing-input-found" in det or "only the correspondence broke" in det
     first = "missed at first" if missed else ("no concrete input at first" if weak else "caught as first built")
